@@ -365,11 +365,20 @@ def natural_failures(rep):
     out = []
     for store in ("dir", "zip"):
         for pos in (0, 1, 3):
-            for kind in ("unpicklable", "torch"):
+            for kind in ("unpicklable", "torch", "object-array", "ragged-array"):
                 work = tempfile.mkdtemp(prefix="c08n_")
                 try:
                     attrs = [("a", 1), ("b", np.arange(3)), ("c", "s"), ("d", torch.ones(2))]
-                    bad = ("bad", Unpicklable()) if kind == "unpicklable" else ("bad", torch.zeros(2))
+                    if kind == "unpicklable":
+                        bad = ("bad", Unpicklable())
+                    elif kind == "torch":
+                        bad = ("bad", torch.zeros(2))
+                    elif kind == "object-array":          # a value kind the store cannot take (object dtype)
+                        bad = ("bad", np.array([1, "a", None], dtype=object))
+                    else:
+                        ragged = np.empty(2, dtype=object)
+                        ragged[0], ragged[1] = np.arange(2), np.arange(3)
+                        bad = ("bad", ragged)
                     attrs.insert(pos, bad)
                     o = Root(**dict(attrs))
                     tgt = os.path.join(work, "t.zip" if store == "zip" else "t")
@@ -385,6 +394,19 @@ def natural_failures(rep):
                     quiesce()
                     rep.add_eval(1)
                     rep.add_distinct(["natural", store, pos, kind])
+                    if not raised and kind in ("object-array", "ragged-array"):
+                        # whether such a value is refused or stored is the library's choice; what may not happen is a
+                        # save that "succeeds" and loads to an object silently missing the attribute
+                        try:
+                            with contextlib.redirect_stdout(io.StringIO()):
+                                got = load(tgt)
+                            missing = sorted(set(dict(attrs)) - set(vars(got)))
+                        except Exception as ex:  # noqa: BLE001
+                            missing = [f"(load raised {type(ex).__name__})"]
+                        if missing:
+                            out.append((f"silently-missing:{store}:natural", f"{store} {kind}@{pos}: save() returned normally but the saved "
+                                                                            f"object loads without {missing}"))
+                        continue
                     if not raised:
                         out.append(("natural-not-raised", f"{store} {kind}@{pos}: save did not fail"))
                         continue
